@@ -35,6 +35,11 @@ a destination.  Proof: `Lemmas/RefTextInl*.lean` (the reference pattern rejects 
 links out left to right with the nested `__handleInline` on the link text; the later stages are those of the
 reference case), `Lemmas/LettersLinksInl.lean`.
 
+**Either output format** (`C06_links_fmt`, `C06_inline_links_fmt`, `C06_inline_links_output_fmt`): the same
+theorems without the hypothesis `cfg.fmt = .xhtml` — the reader `Ser.readForest cfg.fmt` and `visibleLetters … cfg.fmt`
+are those of the format; in the html format a boolean attribute (`href` with the value `href`, `title` with the value
+`title`) is written as the bare name, and is still no text (`Lemmas/RefTextFmt.lean`, `Lemmas/RefTextFmtSpec.lean`).
+
 Helper lemmas: `Lemmas/LettersLinks.lean` (text content of the document tree, letters of a chunk),
 `Lemmas/LettersLinksDoc.lean` (the tree is a vocabulary tree without `&` in its texts; `visibleLetters_inner` of C06),
 `Lemmas/LettersLinksSpec.lean` (bridge to `printInlines`).
@@ -142,6 +147,59 @@ theorem C06_specLinks_spec (u : MLink) (r : List MLink) :
       (DocSpec.specInlines u.text ++ ("</a>".toList ++ DocSpec.specInlines u.after)) ++ specLinks r :=
   ⟨rfl, rfl⟩
 
+/-! ### either output format -/
+
+/-- **C06 with reference-style links, either output format** (`C06_links` without `cfg.fmt = .xhtml`) -/
+theorem C06_links_fmt {L : Char → Bool} (hL : Flat.LetterClass L) (cfg : Pipeline.Cfg)
+    (hbl : cfg.blockLevel = TreeProc.defaultBlockLevel) (htab : 0 < cfg.tab) (hesc : cfg.esc = DocParse2.ESC)
+    (before after : List DefSpec) (hb : ∀ d ∈ before, d.ok cfg.tab = true)
+    (ha : ∀ d ∈ after, d.ok cfg.tab = true) (c0 : List DocSpec.Inline) (us : List MUse) (st : DocSpec.PSt)
+    (hne : us ≠ []) (h0 : mixOK c0 = true) (hus : ∀ u ∈ us, u.ok = true)
+    (hlook : ∀ u ∈ us, Block.lookupRef ((before ++ after).map DefSpec.entry) (normUse u.label) = some (u.url, u.title))
+    (hstart : startPlain (printLine c0 us st) = true) (hchars : (printLine c0 us st).all lineCh = true)
+    (hgt : '>' ∉ printLine c0 us st) (hnoref : Block.refMatchAt (printLine c0 us st) 0 = none) :
+    ∃ out, Pipeline.convert cfg (docOf before (printLine c0 us st) after) = .ok out ∧
+      (Ser.readForest cfg.fmt out).isSome = true ∧
+      C06.visibleLetters L cfg.fmt out = Flat.letters L (visibleLine c0 us st) :=
+  letters_mixLine_fmt hL cfg hbl htab hesc before after hb ha c0 us st hne h0 hus hlook hstart hchars hgt hnoref
+
+/-- **C06 with inline links, either output format** (`C06_inline_links` without `cfg.fmt = .xhtml`) -/
+theorem C06_inline_links_fmt {L : Char → Bool} (hL : Flat.LetterClass L) (cfg : Pipeline.Cfg)
+    (hbl : cfg.blockLevel = TreeProc.defaultBlockLevel) (htab : 0 < cfg.tab) (hesc : cfg.esc = DocParse2.ESC)
+    (before after : List DefSpec) (hb : ∀ d ∈ before, d.ok cfg.tab = true)
+    (ha : ∀ d ∈ after, d.ok cfg.tab = true) (c0 : List DocSpec.Inline) (ls : List MLink) (st : DocSpec.PSt)
+    (hne : ls ≠ []) (h0 : mixOK c0 = true) (hls : ∀ u ∈ ls, u.ok = true)
+    (hstart : startPlain (printLineI c0 ls st) = true) (hchars : (printLineI c0 ls st).all lineCh = true)
+    (hgt : '>' ∉ printLineI c0 ls st) (hnoref : Block.refMatchAt (printLineI c0 ls st) 0 = none) :
+    ∃ out, Pipeline.convert cfg (docOf before (printLineI c0 ls st) after) = .ok out ∧
+      (Ser.readForest cfg.fmt out).isSome = true ∧
+      C06.visibleLetters L cfg.fmt out = Flat.letters L (visibleLineI c0 ls st) :=
+  letters_mixLineI_fmt hL cfg hbl htab hesc before after hb ha c0 ls st hne h0 hls hstart hchars hgt hnoref
+
+/-- **the output for a line with inline links, either output format**: the opening tags in the spelling of the
+    format (`specLinksF`, `C06_specLinksF_spec`) -/
+theorem C06_inline_links_output_fmt (cfg : Pipeline.Cfg)
+    (hbl : cfg.blockLevel = TreeProc.defaultBlockLevel) (htab : 0 < cfg.tab) (hesc : cfg.esc = DocParse2.ESC)
+    (before after : List DefSpec) (hb : ∀ d ∈ before, d.ok cfg.tab = true)
+    (ha : ∀ d ∈ after, d.ok cfg.tab = true) (c0 : List DocSpec.Inline) (ls : List MLink) (st : DocSpec.PSt)
+    (hne : ls ≠ []) (h0 : mixOK c0 = true) (hls : ∀ u ∈ ls, u.ok = true)
+    (hstart : startPlain (printLineI c0 ls st) = true) (hchars : (printLineI c0 ls st).all lineCh = true)
+    (hnoref : Block.refMatchAt (printLineI c0 ls st) 0 = none) :
+    Pipeline.convert cfg (docOf before (printLineI c0 ls st) after) =
+      .ok ("<p>".toList ++ (DocSpec.specInlines c0 ++ specLinksF cfg.fmt ls) ++ "</p>".toList) :=
+  convert_mixLineI_fmt cfg hbl htab hesc before after hb ha c0 ls st hne h0 hls hstart hchars hnoref
+
+/-- the rendering of the links in format `fmt`, spelled out (`attrHtml`: `Props/C15Forms.lean`); for xhtml it is
+    `specLinks` -/
+theorem C06_specLinksF_spec (fmt : Ser.Fmt) (u : MLink) (r : List MLink) :
+    specLinksF fmt [] = [] ∧
+    specLinksF fmt (u :: r) = ("<a".toList ++ attrHtml fmt "href".toList u.url ++
+        (if Node.truthy (u.dtitle.map (·.2)) then attrHtml fmt "title".toList ((u.dtitle.map (·.2)).getD []) else []) ++
+        ['>']) ++
+      (DocSpec.specInlines u.text ++ ("</a>".toList ++ DocSpec.specInlines u.after)) ++ specLinksF fmt r ∧
+    specLinksF .xhtml (u :: r) = specLinks (u :: r) :=
+  ⟨rfl, rfl, specLinksF_xhtml _⟩
+
 /-- **`getLink` on a simple destination**: for `(url)` / `(url "title")` after any prefix `X`, before any rest:
     the destination, the title text, the position behind `)`, handled -/
 theorem C06_getLink_dest (stash : List StashItem) (X url rest : Str) (title : Option (Char × Str))
@@ -225,6 +283,27 @@ example :
       "seeitandabthedocsofxythenplain".toList ∧
     Flat.letters Flat.isLetterU (printLineI sampleC0 [sampleL1, sampleL2] sampleSt) =
       "seeitandabthedocsofxyhttpeorgabcdTheTitlethenplainv".toList := by decide +kernel
+
+/-- the html format with boolean attributes: `[go](href "title")` gives `<a href title>`; the visible letters are
+    still those of the contents and the link texts -/
+def sampleL3 : MLink := ⟨[.em [.text (S "go")]], S "href", some ('"', S "title"), []⟩
+
+example : sampleL3.ok = true := by decide
+
+example : ∃ out, Pipeline.convert { fmt := .html } (docOf [] (printLineI sampleC0 [sampleL1, sampleL3] sampleSt) []) = .ok out ∧
+    (Ser.readForest .html out).isSome = true ∧
+    C06.visibleLetters Flat.isLetterU .html out =
+      Flat.letters Flat.isLetterU (visibleLineI sampleC0 [sampleL1, sampleL3] sampleSt) :=
+  C06_inline_links_fmt Flat.letterClass_unicode { fmt := .html } rfl (by decide) rfl [] [] (by simp) (by simp) sampleC0
+    [sampleL1, sampleL3] sampleSt (by simp) (by decide) (by decide) (by decide +kernel) (by decide +kernel)
+    (by decide +kernel) (by decide +kernel)
+
+example :
+    Pipeline.convert { fmt := .html } (docOf [] (printLineI sampleC0 [sampleL1, sampleL3] sampleSt) []) =
+      .ok ("<p>see <em>it</em> and <code>a[b]</code>! <a href=\"http://e.org/a?b=c#d\" title=\"The Title\">" ++
+        "<strong>the docs</strong> of <code>x*y</code>_</a> then *<a href title><em>go</em></a></p>").toList ∧
+    Flat.letters Flat.isLetterU (visibleLineI sampleC0 [sampleL1, sampleL3] sampleSt) =
+      "seeitandabthedocsofxythengo".toList := by decide +kernel
 
 end examples
 
